@@ -60,8 +60,10 @@ func Gen(r *sx.Rng, idx int, focus string) sx.Tree {
 	}
 	lockPct := 50
 	switch focus {
-	case "C17", "C04":
+	case "C17":
 		lockPct = 100
+	case "C04":
+		lockPct = 60
 	case "C05", "C16":
 		lockPct = 30
 	}
@@ -75,7 +77,18 @@ func Gen(r *sx.Rng, idx int, focus string) sx.Tree {
 		} else {
 			phases = append(phases, sx.Ints(n, 1))
 		}
-		return sx.T(sx.L(0), sx.L(2), sx.T(cfgs...), sx.T(phases...))
+		// stall one discarding node (if any) for the whole emission phase: nobody else may have to wait for it
+		stall := []sx.Tree{}
+		if (focus == "C04" && r.Chance(80)) || r.Chance(25) {
+			if ids := discardingIDs(cfgs); len(ids) > 0 {
+				stall = append(stall, sx.L(ids[r.Intn(len(ids))]))
+				if focus == "C04" {
+					phases[1] = sx.Ints(r.Range(100, 600), 1)
+					phases = phases[:2]
+				}
+			}
+		}
+		return sx.T(sx.L(0), sx.L(2), sx.T(cfgs...), sx.T(phases...), sx.T(stall...))
 	}
 	// lockstep scenario
 	ints := []sx.Tree{}
@@ -116,4 +129,25 @@ func Gen(r *sx.Rng, idx int, focus string) sx.Tree {
 	}
 	ints = append(ints, sx.Ints(6))
 	return sx.T(sx.L(1), sx.L(1), sx.T(cfgs...), sx.T(ints...))
+}
+
+// discardingIDs lists the ids of enabled nodes (not handlers) marked discard_on_full_buffer whose ancestors are enabled.
+func discardingIDs(cfgs []sx.Tree) []int64 {
+	var out []int64
+	var walk func(t sx.Tree)
+	walk = func(t sx.Tree) {
+		if t.At(4).Bool() {
+			return
+		}
+		if t.At(5).Bool() {
+			out = append(out, t.At(0).Int())
+		}
+		for _, k := range t.At(6).Kids {
+			walk(k)
+		}
+	}
+	for _, c := range cfgs {
+		walk(c)
+	}
+	return out
 }
